@@ -254,8 +254,9 @@ def run(ctx) -> None:
     sel_ok = False
     sel_desc = ""
     rets = [n for n in walk_no_nested(gl.node) if isinstance(n, ast.Return) and n.value is not None and not (isinstance(n.value, ast.Constant) and n.value.value is None)]
-    ctx.require(len(rets) == 1, "get_latest_vcs_version_tag: expected one non-None return")
-    rv = rets[0].value
+    ev = latest_tag_eval(ctx)
+    ctx.require(ev is not None or len(rets) == 1, "get_latest_vcs_version_tag: expected one non-None return")
+    rv = rets[0].value if rets else None
 
     def key_of(call: ast.Call) -> T.Optional[bool]:
         k = [kw.value for kw in call.keywords if kw.arg == "key"]
@@ -273,7 +274,9 @@ def run(ctx) -> None:
         return bool(r) and isinstance(r[0], ast.Constant) and r[0].value is True
 
     lst = pvt and shapes.single_def(gl, "version_tags") is not None
-    if isinstance(rv, ast.Call) and unparse(rv.func) == "max":
+    if ev is not None:
+        sel_ok, sel_desc = not ev, "evaluated: " + ("; ".join(ev[:2]) if ev else "every order of three version tags and a non-version tag")
+    elif isinstance(rv, ast.Call) and unparse(rv.func) == "max":
         sel_ok = key_of(rv) is True
         sel_desc = unparse(rv)
     elif isinstance(rv, ast.Subscript) and isinstance(rv.slice, (ast.Constant, ast.UnaryOp)):
@@ -355,7 +358,9 @@ def run(ctx) -> None:
         iv = prog.function(f"{modname}.is_valid")
         ctx.visit(iv.fq, f"{modname}.parse_version_info")
         pvi = shapes.find_calls(prog, iv, f"{modname}.parse_version_info")
-        ctx.check("R4", len(pvi) == 1 and [unparse(a) for a in pvi[0].args] == iv.params[:2],
+        pvi_fn = prog.function(f"{modname}.parse_version_info")
+        ctx.check("R4", len(pvi) == 1 and [unparse(call_arg(pvi[0], pvi_fn, p_) or ast.Constant(None)) for p_ in pvi_fn.params[:2]] == iv.params[:2]
+                  and len(pvi[0].args) + len(pvi[0].keywords) == 2,
                   f"{modname}.is_valid parses (version_str, raw_pattern) with parse_version_info",
                   f"{modname}.is_valid: does not validate by parsing with the given pattern", "", loc=iv.loc())
         if len(pvi) == 1:
@@ -556,6 +561,43 @@ def tag_listing_rule(ctx, rule: str) -> None:
             continue
         ctx.check(rule, got == want, f"{fn.fq}: one tag per line of the listing (evaluated on 4 lines)", f"{fn.fq}: the tag listing is not read one tag per line",
                   f"{got!r}, expected {want!r}: part of a non-matching tag name is taken for a version tag", loc=fn.loc(), witness={"tag": "junk\u00a09.9.9"})
+
+
+def latest_tag_eval(ctx) -> T.Optional[T.List[str]]:
+    """cli.get_latest_vcs_version_tag evaluated for every listing order of three version tags and one other tag, with an
+    abstract version order: the result is the filtered tag that version.parse_version ranks highest, None without version
+    tags.  Returns the mismatches, or None when the function is outside what the evaluator handles."""
+    import itertools
+    from sa.model import Abstract, CannotFold, EvalError
+    prog = ctx.prog
+    gl = prog.function("cli.get_latest_vcs_version_tag")
+    rank = {"v-low": 1, "v-mid": 2, "v-top": 3}
+
+    class VersionMod(Abstract):
+        def parse_version(self, tag: str) -> int:
+            return rank[tag]
+
+    class Cfg(Abstract):
+        tag_scope, version_pattern, is_new_pattern = "SCOPE", "PAT", True
+    wrong: T.List[str] = []
+    try:
+        listings = [list(p_) for p_ in itertools.permutations(["v-low", "v-top", "junk", "v-mid"])] + [[], ["junk"], ["v-mid"]]
+        for tags in listings:
+            stubs = {"vcs.get_tags": lambda f, node, tags=tags: list(tags),
+                     "_parse_version_tags": lambda f, node: [t_ for t_ in f(node.args[0] if node.args else node.keywords[0].value) if t_ in rank]}
+            env = {gl.params[0]: Cfg(), gl.params[1]: True, "version": VersionMod(), "__strict__": True, "__stubs__": stubs}
+            try:
+                got, _ys = prog.run_body(gl, env)
+            except EvalError as ex:
+                got = f"raises: {ex}"
+            good = [t_ for t_ in tags if t_ in rank]
+            want = max(good, key=rank.get) if good else None
+            if got != want and len(wrong) < 3:
+                wrong.append(f"tags {tags} -> {got!r}, expected {want!r}")
+    except (CannotFold, TypeError, AttributeError, KeyError, ValueError, IndexError) as ex:
+        ctx.observe(f"cli.get_latest_vcs_version_tag not evaluated ({type(ex).__name__}: {str(ex)[:80]})")
+        return None
+    return wrong
 
 
 def parse_version_tags_eval(ctx, rule: str) -> bool:
